@@ -115,3 +115,72 @@ def run(cfgs: list[str], timeout: int = 1500) -> tuple[list[dict], dict]:
 	stats['grammars'] = len(records)
 	stats['laws'] = laws
 	return failures, stats
+
+
+def run_py_gram(sentences: list[str], scratch: str, timeout: int = 1500) -> tuple[list[dict], dict]:
+	"""GramEnginePy.tla: the specification's engine on the shipped py_rules() and real token lists, compared with SyntaxParser"""
+	import os
+	import re
+	compat.patch_rules()
+	from data.syntax.py_rules import py_rules
+	from rogw.tranp.errors import Errors
+	from rogw.tranp.implements.syntax.tranp.syntax import SyntaxParser
+	from rogw.tranp.implements.syntax.tranp.tokenizer import Tokenizer
+	from harness.checks.c12 import struct
+	rules = py_rules()
+	rs = [{'name': key.split('[')[0], 'unwrap': rules.unwrap_by(key.split('[')[0]).value, 'm': struct(rules._rules[key])} for key in rules.org_symbols()]
+	tk = Tokenizer()
+	sents, words = [], set()
+	for i, s in enumerate(sentences):
+		try:
+			toks = [t.string for t in tk.parse(s)]
+		except Exception:
+			continue  # the tokenizer refuses the text: nothing for the engine to do
+		sents.append({'id': i, 'toks': toks})
+		words |= set(toks)
+	regexes: set[str] = set()
+
+	def walk(m: dict) -> None:
+		if m['t'] == 'pat':
+			if m['comp'] == 'Regexp':
+				regexes.add(m['e'])
+		else:
+			for e in m['es']:
+				walk(e)
+	for r in rs:
+		walk(r['m'])
+	matches = [[e, w] for e in sorted(regexes) for w in sorted(words) if re.fullmatch(e, w)]
+	os.makedirs(scratch, exist_ok=True)
+	data = os.path.join(scratch, 'engine_data.json')
+	with open(data, 'w') as f:
+		json.dump({'rules': rs, 'matches': matches, 'sentences': sents}, f)
+	res = tlc.run('GramEnginePy', 'GramEnginePy.cfg', workers=1, timeout=timeout, env={'ENGINE_DATA': data}, heap='8g')
+	if res.rc != 0:
+		raise Machinery(f'GramEnginePy: evaluation error: {res.out[-600:]}')
+	spec = {r['id']: r for r in (json.loads(line) for line in res.lines('PYENGINE '))}
+	parser = SyntaxParser(rules, Tokenizer())
+	failures = []
+	stats = {'py_gram_sentences': len(sents), 'py_gram_accepted': 0, 'py_gram_rejected': 0, 'py_gram_rules': len(rs)}
+	signal.signal(signal.SIGALRM, _alarm)
+	for s in sents:
+		text = sentences[s['id']]
+		signal.setitimer(signal.ITIMER_REAL, 20)
+		try:
+			got = ('accept', shape(parser.parse(text, 'entry').simplify()))
+		except _Timeout:
+			got = ('timeout', [])
+		except Errors.Syntax:
+			got = ('reject', [])
+		except Exception as e:
+			got = (f'crash:{type(e).__name__}', [])
+		finally:
+			signal.setitimer(signal.ITIMER_REAL, 0)
+		want = spec.get(s['id'])
+		stats['py_gram_accepted' if got[0] == 'accept' else 'py_gram_rejected'] += 1
+		if want is None:
+			raise Machinery(f'GramEnginePy printed nothing for sentence {s["id"]}')
+		if want['v'] == 'spin' or got[0] == 'timeout':
+			continue
+		if want['v'] != got[0] or (got[0] == 'accept' and want['tree'] != got[1]):
+			failures.append({'clause': 'EngineAsSpecified', 'kind': 'py_gram:' + ('tree' if want['v'] == got[0] else f'{want["v"]}-vs-{got[0]}'), 'detail': f'py_gram on {text!r}: the specification\'s engine says {want["v"]} {json.dumps(want["tree"])[:200]}, the real engine {got[0]} {json.dumps(got[1])[:200]}', 'src': text})
+	return failures, stats
